@@ -16,7 +16,7 @@ UNCLAIMED = ""
 
 PROPS = {
     "C01": {
-        "engine": "fes",
+        "engine": "fes+rt",
         "technique": SIM_TECH,
         "level_text": "Seeded exploration: generated add/cancel/fetch histories are executed on the real "
                       "calendar queue and compared operation by operation with a reference priority queue; structural invariants are "
@@ -64,7 +64,7 @@ PROPS = {
         "assumptions": ["cqueue backend (default feature set)", "sampled programs, not exhaustive"],
     },
     "C10": {
-        "engine": "rt",
+        "engine": "rt+net",
         "technique": SIM_TECH + "; the schedule dimension is the step schedule (cuts, until-times, adds while paused)",
         "level": "exploration",
         "level_text": "Seeded exploration over (event program x step schedule): the stepped run on the real Runtime must equal the real "
@@ -110,7 +110,7 @@ PROPS = {
         "assumptions": ["cqueue backend (default feature set)", "sampled programs and limits, not exhaustive"],
     },
     "C03": {
-        "engine": "fes+rt",
+        "engine": "fes+rt+net",
         "technique": SIM_TECH,
         "level_text": "Seeded exploration of tie-heavy scheduling histories on the real calendar queue and on the real Runtime; the dispatch "
                       "order must equal, id by id, the order computed from the property's tie rule. Sampled, not exhaustive.",
@@ -164,6 +164,7 @@ def net_prop(**kw):
 
 PROPS.update({
     "C04": net_prop(
+        engine="net+asy",
         technique=SIM_TECH + " (differential: same program and seed executed twice in one process and in separate processes with shifted global counters and heap)",
         level_text="Seeded exploration: generated multi-module models (jittered channels, random draws, chained/pre-scheduled timers, restarts) are "
                    "executed twice back to back in one process and again in a second set of worker processes that first run a seed-derived "
@@ -210,6 +211,7 @@ PROPS.update({
         expected_probes=["invalid_node_rejected", "insertion_order_differs_from_preorder", "tree_query", "inner_application_fails_at_the_end"],
         assumptions=["sampled, not exhaustive"]),
     "C14": net_prop(
+        engine="net+asy",
         level_text="Seeded exploration: processing stacks of 0..6 scripted elements (pass / modify / consume, optionally sending from a hook) "
                    "supplied globally (with_stack / set_stack) and per module (appended / prepended) under message, start-up, restart and "
                    "tear-down events; the recorded hook calls are parsed against the bracket grammar of the property.",
